@@ -16,6 +16,7 @@ import (
 	"runtime"
 	"strings"
 	"sync"
+	"sync/atomic"
 	"testing"
 	"time"
 
@@ -595,6 +596,80 @@ func stRunScenario(sc stScenario, idx int64) *stRun {
 	return h
 }
 
+// stCancelInWaitWindow: gate scenario. The receiver is held at the yield site
+// right before its cond.Wait() (it still holds the stream's lock there), the
+// call's context is cancelled, the watcher that must wake the receiver gets a
+// chance to run, then the receiver is released. It must return.
+func stCancelInWaitWindow(idx int64) *stRun {
+	h := &stRun{hits: map[string]int64{}, idx: idx}
+	h.say("scenario cancel-in-wait-window: RecvMsg held right before cond.Wait, context cancelled, then released")
+	ctx, cancel := context.WithCancel(context.Background())
+	defer cancel()
+	streamer := func(sctx context.Context, d *grpc.StreamDesc, cc *grpc.ClientConn, method string, opts ...grpc.CallOption) (grpc.ClientStream, error) {
+		return &stQuietStream{ctx: sctx}, nil
+	}
+	cs, err := GCPStreamClientInterceptor(ctx, &grpc.StreamDesc{}, nil, "/svc/stream", streamer)
+	if err != nil {
+		h.fail("C12.interceptor-error", "", "%v", err)
+		return h
+	}
+	gate := make(chan struct{})
+	reached := make(chan string, 1)
+	var armed int32 = 1
+	var broadcasts int32
+	verifYieldFn = func(site string) {
+		if strings.Contains(site, "/Broadcast#") {
+			atomic.AddInt32(&broadcasts, 1)
+		}
+		if strings.Contains(site, "/Wait#") && atomic.CompareAndSwapInt32(&armed, 1, 0) {
+			reached <- site
+			<-gate
+		}
+	}
+	defer func() { verifYieldFn = nil }()
+	var rerr error
+	op := vStartOp(func() {
+		var x int
+		rerr = cs.RecvMsg(&x)
+	})
+	var site string
+	select {
+	case site = <-reached:
+	case <-op.done:
+		h.hits["C12.gate-not-reached"]++
+		return h
+	case <-time.After(10 * time.Second):
+		h.hits["C12.gate-not-reached"]++
+		close(gate)
+		return h
+	}
+	cancel()
+	// give the watcher a chance: either it broadcasts at once (without waiting
+	// for the receiver to be inside Wait) or it blocks on the stream's lock
+	for i := 0; i < 40 && atomic.LoadInt32(&broadcasts) == 0; i++ {
+		time.Sleep(500 * time.Microsecond)
+	}
+	early := atomic.LoadInt32(&broadcasts) > 0
+	h.say("receiver held at %s; context cancelled; watcher broadcast before the receiver waits: %v", site, early)
+	close(gate)
+	st := op.awaitDone(2 * time.Second)
+	h.hit("C12.cancel-in-wait-window")
+	if st != vDone {
+		h.fail("C12.recv-ignores-context", "cancel-in-wait-window", "RecvMsg stays blocked (%s, %q): the context ended between its context check and cond.Wait and the wake-up was lost", st, op.state)
+		// unblock the leaked goroutine: create the stream
+		go cs.SendMsg(1)
+		return h
+	}
+	if op.panicked {
+		h.fail("C12.panic", vPanicKind(op.pval)+"@RecvMsg(cancel-in-wait-window)", "RecvMsg panicked: %v", op.pval)
+		return h
+	}
+	if rerr == nil {
+		h.fail("C12.recv-early-return", "cancel-in-wait-window", "RecvMsg returned nil without a stream")
+	}
+	return h
+}
+
 // ---------------------------------------------------------------- unary
 
 func stUnary(rng *vRand, h *stRun) {
@@ -606,6 +681,14 @@ func stUnary(rng *vRand, h *stRun) {
 	method := fmt.Sprintf("/svc/u%d", rng.Intn(5))
 	opts := []grpc.CallOption{grpc.EmptyCallOption{}, grpc.WaitForReady(true)}[:rng.Intn(3)]
 	ctx := context.WithValue(context.Background(), stUserKey{}, "user-value")
+	nested := rng.Bool()
+	if nested {
+		// the caller's context is derived from another intercepted call (e.g. an
+		// auxiliary RPC issued by a chained interceptor): it already carries that
+		// call's request/reply
+		ctx = context.WithValue(ctx, gcpKey, &gcpContext{reqMsg: &simMsg{Key: "other-call"}, replyMsg: &simMsg{}})
+		h.hit("C12.unary-nested-context")
+	}
 	calls := 0
 	var bad string
 	invoker := func(ictx context.Context, m string, rq, rp interface{}, cc *grpc.ClientConn, o ...grpc.CallOption) error {
@@ -624,7 +707,7 @@ func stUnary(rng *vRand, h *stRun) {
 	}
 	var err error
 	op := vStartOp(func() { err = GCPUnaryClientInterceptor(ctx, method, req, reply, nil, invoker, opts...) })
-	h.say("unary %s opts=%d invokerErr=%v", method, len(opts), wantErr)
+	h.say("unary %s opts=%d invokerErr=%v nested-gcp-context=%v", method, len(opts), wantErr, nested)
 	if st := op.awaitDone(5 * time.Second); st != vDone || op.panicked {
 		h.fail("C12.panic", "unary", "GCPUnaryClientInterceptor panicked or hung: %v", op.pval)
 		return
@@ -676,7 +759,7 @@ func stAllScenarios() []stScenario {
 	return r
 }
 
-var stNontrivial = []string{"C12.creation-gated", "C12.recv-before-send", "C12.unary-transparent", "C12.bystander:before-send"}
+var stNontrivial = []string{"C12.creation-gated", "C12.recv-before-send", "C12.unary-transparent", "C12.bystander:before-send", "C12.cancel-in-wait-window"}
 
 func TestVerifStream(t *testing.T) {
 	env := vGetEnv()
@@ -697,7 +780,14 @@ func TestVerifStream(t *testing.T) {
 	for _, idx := range env.vCases(total) {
 		rng := vNewRand(env.Seed, "stream", idx)
 		sc := all[idx%int64(len(all))]
-		h := stRunScenario(sc, idx)
+		var h *stRun
+		if idx%int64(len(all)) == 0 || idx%37 == 5 {
+			h = stCancelInWaitWindow(idx)
+			sc = stScenario{creation: "gate:cancel-in-wait-window"}
+			h.sc = sc
+		} else {
+			h = stRunScenario(sc, idx)
+		}
 		if h.viol == nil && idx%4 == 0 {
 			stUnary(rng, h)
 		}
